@@ -59,9 +59,11 @@ theorem andThen_docs_nil (r : Res) (f : BState → Res) (h1 : r.docs = []) (h2 :
 theorem ensureCached_docs (w : World) (s : BState) (o : Obj) (c : Bool) : (ensureCached w s o c).docs = [] := by
   unfold ensureCached
   apply andThen_docs_nil
-  · repeat' split
+  · unfold cacheDescribe
+    repeat' split
     all_goals rfl
   · intro s'
+    unfold cacheConfig
     split
     · exact andThen_docs_nil _ _ (cacheDescribeConfig_docs ..) (fun s => cacheReadConfig_docs ..)
     · rfl
@@ -218,7 +220,7 @@ theorem DRel_save (w : World) (s : BState) : DRel s (save w s) := by
         have : DRel { s with bundling := false, bundleName := none }
             ((saveDescriptor w { s with bundling := false, bundleName := none } n s.objsRead).andThen fun s' =>
               saveEvent s' n (mergeReadings s.readCache)) :=
-          DRel_andThen _ _ _ h1 (fun s' => DRel_of_eq _ _ (KeepsDesc.keeps_saveEvent s' n _))
+          DRel_andThen _ _ _ h1 (fun s' => DRel_of_eq _ _ (KeepsDesc.keeps_saveEvent w s' n _))
         exact this
 
 theorem DRel_monitor (w : World) (s : BState) (o : Obj) (n : Name) : DRel s (monitor w s o n) := by
